@@ -8,14 +8,14 @@ N = 40
 RULES = [
     (r'csv_errc::(\w+)', r'csv_errc_\1', 0, N), (r'csv_parse_state::(\w+)', r'csv_parse_state_\1', 4, N),
     (r'buffer_\.push_back\(static_cast<CharT>\(curr_char\)\);', 'vx_buf_push(curr_char);', 1, 4), (r'buffer_\.clear\(\);', 'vx_buf_clear();', 0, 2), (r'buffer_\.empty\(\)', '(vx_buflen == 0)', 0, 6),
-    (r'before_value\(local_visitor, ec\);', 'vx_before_value(ec_p);', 2, 8), (r'trim_string_buffer\(trim_leading_,\s*trim_trailing_\);', 'vx_trim();', 2, 8), (r'char_type\(\)', "'\\\\0'", 1, 4),
+    (r'before_value\(local_visitor, ec\);', 'vx_before_value(ec_p);', 2, 8), (r'before_value\(local_visitor, ec, true\);', 'vx_before_value(ec_p); vx_opens_subfields++;', 0, 2), (r'stack_\.back\(\) == csv_mode::subfields', 'vx_mode_subfields', 0, 2), (r'trim_string_buffer\(trim_leading_,\s*trim_trailing_\);', 'vx_trim();', 2, 8), (r'char_type\(\)', "'\\\\0'", 1, 4),
 ]
 S0 = '__CPROVER_old(self->state_)'
 C = 'vx_in[vx_off]'
 PO = '(size_t)(self->input_ptr_ - vx_in)'
 Q, E, D = 'self->quote_char_', 'self->quote_escape_char_', 'self->field_delimiter_'
-PRE = [('requires', 'self->input_ptr_ == vx_in + vx_off && vx_off < vx_n && vx_n <= 100000000 && self->more_ && *ec_p == 0 && self->column_ <= SIZE_MAX / 2 && vx_buflen <= SIZE_MAX / 2 && vx_pushes == 0 && vx_clears == 0 && vx_before_values == 0 && vx_trims == 0'),
-       ('assigns', '*ec_p, self->state_, self->more_, self->input_ptr_, self->column_, vx_buflen, vx_pushes, vx_clears, vx_before_values, vx_trims, vx_pushed, vx_spec_r')]
+PRE = [('requires', 'self->input_ptr_ == vx_in + vx_off && vx_off < vx_n && vx_n <= 100000000 && self->more_ && *ec_p == 0 && self->column_ <= SIZE_MAX / 2 && vx_buflen <= SIZE_MAX / 2 && vx_pushes == 0 && vx_clears == 0 && vx_before_values == 0 && vx_trims == 0 && vx_opens_subfields == 0'),
+       ('assigns', '*ec_p, self->state_, self->more_, self->input_ptr_, self->column_, vx_buflen, vx_pushes, vx_clears, vx_before_values, vx_trims, vx_pushed, vx_spec_r, vx_opens_subfields')]
 QUOTED = PRE + [
     ('requires', 'self->state_ == csv_parse_state_quoted_string || self->state_ == csv_parse_state_escaped_value || self->state_ == csv_parse_state_between_values'),
     ('ensures', '[C18] inside a quoted field the parser is the S-CSV decoder: an ordinary character is appended; the escape character waits for the next one; an unescaped quote closes the field',
@@ -28,9 +28,9 @@ QUOTED = PRE + [
      '(%s == csv_parse_state_quoted_string || %s == csv_parse_state_escaped_value) ==> (vx_spec_r >= 0 ? (vx_pushes == 1 && (unsigned char)vx_pushed == vx_spec_r) : vx_pushes == 0)' % (S0, S0)),
     ('ensures', '[C18] after the closing quote: the delimiter or a line break ends the field (value event, the character is left for the record level); the content is not touched unless a trim option is on (what happens on other characters, which encoder output never has there, is not constrained)',
      '%s == csv_parse_state_between_values ==> (vx_pushes == 0 && vx_clears == 0 && ((self->trim_leading_ || self->trim_trailing_) || vx_trims == 0) '
-     '&& ((%s == \'\\r\' || %s == \'\\n\') ? (%s == vx_off && ((self->ignore_empty_values_ && vx_buflen == 0) ? (self->state_ == csv_parse_state_end_record && vx_before_values == 0) : (vx_before_values == 1 && (*ec_p == 0 ==> self->state_ == csv_parse_state_before_last_quoted_field)))) '
+     '&& ((%s == \'\\r\' || %s == \'\\n\') ? (%s == vx_off && ((self->ignore_empty_values_ && vx_buflen == 0) ? (self->state_ == (vx_mode_subfields ? csv_parse_state_before_last_unquoted_field_tail : csv_parse_state_end_record) && vx_before_values == 0) : (vx_before_values == 1 && (*ec_p == 0 ==> self->state_ == csv_parse_state_before_last_quoted_field)))) '
      ': (%s == %s) ? (%s == vx_off && vx_before_values == 1 && self->state_ == csv_parse_state_before_quoted_field) '
-     ': (self->subfield_delimiter_ != 0 && %s == self->subfield_delimiter_) ? (%s == vx_off && vx_before_values == 1 && self->state_ == csv_parse_state_before_quoted_subfield) '
+     ': (self->subfield_delimiter_ != 0 && %s == self->subfield_delimiter_) ? (%s == vx_off && vx_before_values == 1 && vx_opens_subfields == 1 && self->state_ == csv_parse_state_before_quoted_subfield) '
      ': 1))' % (S0, C, C, PO, C, D, PO, C, PO)),
 ]
 UNQUOTED = PRE + [
@@ -38,8 +38,12 @@ UNQUOTED = PRE + [
     ('ensures', '[C18] inside an unquoted field every character other than the delimiter, the sub-field delimiter, the quote character, CR and LF is appended as it is (these are exactly the characters that make the encoder quote a field)',
      '(%s != \'\\r\' && %s != \'\\n\' && %s != %s && !(self->subfield_delimiter_ != 0 && %s == self->subfield_delimiter_) && %s != %s) ==> (vx_pushes == 1 && vx_pushed == %s && vx_clears == 0 && vx_trims == 0 && vx_before_values == 0 && self->state_ == csv_parse_state_unquoted_string && %s == vx_off + 1 && *ec_p == 0)' % (C, C, C, D, C, C, Q, C, PO)),
     ('ensures', '[C18] the delimiter or a line break ends the field: value event, the character is left for the record level, nothing is appended or cleared',
-     '((%s == \'\\r\' || %s == \'\\n\') ==> (vx_pushes == 0 && vx_clears == 0 && %s == vx_off && ((self->ignore_empty_values_ && vx_buflen == 0) ? (self->state_ == csv_parse_state_end_record && vx_before_values == 0) : (vx_before_values == 1 && (*ec_p == 0 ==> self->state_ == csv_parse_state_before_last_unquoted_field))))) '
+     '((%s == \'\\r\' || %s == \'\\n\') ==> (vx_pushes == 0 && vx_clears == 0 && %s == vx_off && ((self->ignore_empty_values_ && vx_buflen == 0) ? (self->state_ == (vx_mode_subfields ? csv_parse_state_before_last_unquoted_field_tail : csv_parse_state_end_record) && vx_before_values == 0) : (vx_before_values == 1 && (*ec_p == 0 ==> self->state_ == csv_parse_state_before_last_unquoted_field))))) '
      '&& ((%s != \'\\r\' && %s != \'\\n\' && %s == %s) ==> (vx_pushes == 0 && vx_clears == 0 && %s == vx_off && vx_before_values == 1 && self->state_ == csv_parse_state_before_unquoted_field))' % (C, C, PO, C, C, C, D, PO)),
+    ('ensures', '[C05][C18] the sub-field delimiter ends a sub-field: value event announced as one that opens or continues a list of sub-fields (F51: with ignore_empty_values an empty first sub-field lost the member name of the list), the character is left for the sub-field level',
+     '(%s != \'\\r\' && %s != \'\\n\' && %s != %s && self->subfield_delimiter_ != 0 && %s == self->subfield_delimiter_) ==> (vx_pushes == 0 && vx_clears == 0 && %s == vx_off && vx_before_values == 1 && vx_opens_subfields == 1 && self->state_ == csv_parse_state_before_unquoted_subfield)' % (C, C, C, D, C, PO)),
+    ('ensures', '[C05][C18] F51: inside a list of sub-fields a record never ends without the state that closes the list - an ignored empty last sub-field goes to before_last_unquoted_field_tail, not straight to end_record',
+     '(vx_mode_subfields && (%s == \'\\r\' || %s == \'\\n\')) ==> self->state_ != csv_parse_state_end_record' % (C, C)),
     ('ensures', '[C18] a quote character at the start of a field opens a quoted field (a quote character later in an unquoted field never occurs in encoder output; what the parser does with it is not constrained)',
      '(__CPROVER_old(vx_buflen) == 0 && %s != \'\\r\' && %s != \'\\n\' && %s != %s && !(self->subfield_delimiter_ != 0 && %s == self->subfield_delimiter_) && %s == %s) ==> (vx_pushes == 0 && vx_buflen == 0 && self->state_ == csv_parse_state_quoted_string && %s == vx_off + 1 && *ec_p == 0)' % (C, C, C, D, C, C, Q, PO)),
     ('ensures', '[C18] the content is not trimmed unless a trim option is on', '(self->trim_leading_ || self->trim_trailing_) || vx_trims == 0'),
@@ -78,14 +82,44 @@ EOF_C = [
     ('ensures', '[C05][C18] the input ends inside a quoted field (no closing quote): unexpected_eof, the parser stops; it is never treated as the end of a record',
      '__CPROVER_old(self->state_) == csv_parse_state_quoted_string ==> (*ec_p == csv_errc_unexpected_eof && !self->more_ && !vx_default_arm && vx_before_values == 0)'),
     ('ensures', '[C05][C18] the input ends after the closing quote of the last field and some blanks (F50): the field is complete - it is delivered like a field that is followed by a line break; never the default arm',
-     '__CPROVER_old(self->state_) == csv_parse_state_between_values ==> (!vx_default_arm && ((self->ignore_empty_values_ && __CPROVER_old(vx_buflen) == 0) ? (vx_before_values == 0 && self->state_ == csv_parse_state_end_record) : (vx_before_values == 1 && (*ec_p == 0 ==> self->state_ == csv_parse_state_before_last_quoted_field))))'),
+     '__CPROVER_old(self->state_) == csv_parse_state_between_values ==> (!vx_default_arm && ((self->ignore_empty_values_ && __CPROVER_old(vx_buflen) == 0) ? (vx_before_values == 0 && self->state_ == (vx_mode_subfields ? csv_parse_state_before_last_unquoted_field_tail : csv_parse_state_end_record)) : (vx_before_values == 1 && (*ec_p == 0 ==> self->state_ == csv_parse_state_before_last_quoted_field))))'),
     ('ensures', '[C18] the input ends right after the closing quote of the last field: the field is delivered and the record ends', '__CPROVER_old(self->state_) == csv_parse_state_before_last_quoted_field ==> (vx_end_quoted == 1 && self->state_ == csv_parse_state_end_record && *ec_p == 0)'),
 ]
 SPECS.append(FuncSpec('eof_quoted', P, SIG, count=1, csig='void eof_quoted(struct csv_parser* self, int* ec_p)', contract=EOF_C, aliases=dict(AL, column_index_='vx_column_index'),
-             rules=RULES[:2] + [(r'end_quoted_string_value\(local_visitor, ec\);', 'vx_end_quoted++;', 1), (r'err_handler_\(csv_errc_unexpected_eof, \*this\);', 'vx_err_handler_calls++;', 0, 1), (r'buffer_\.empty\(\)', '(vx_buflen == 0)', 1, 3), (r'before_value\(local_visitor, ec\);', 'vx_before_value(ec_p);', 1, 2)],
+             rules=RULES[:2] + [(r'end_quoted_string_value\(local_visitor, ec\);', 'vx_end_quoted++;', 1), (r'err_handler_\(csv_errc_unexpected_eof, \*this\);', 'vx_err_handler_calls++;', 0, 1), (r'buffer_\.empty\(\)', '(vx_buflen == 0)', 1, 3), (r'before_value\(local_visitor, ec\);', 'vx_before_value(ec_p);', 1, 2), (r'stack_\.back\(\) == csv_mode::subfields', 'vx_mode_subfields', 0, 3)],
              slice_from=r'case csv_parse_state::before_last_quoted_field:(?=\s*end_quoted_string_value\(local_visitor, ec\);\s*\+\+column_index_;)', slice_to=r'case csv_parse_state::end_record:\s*if \(column_index_ > 0\)',
              prologue='switch (state_) {', epilogue='default: vx_default_arm = true; state_ = csv_parse_state_end_record; break; }'))
+
+# ---- F51: the member name of a value (before_value, data rows) and the column bookkeeping of m_columns for an ignored empty value (end_unquoted_string_value / end_quoted_string_value)
+BV_C = [
+    ('requires', '*ec_p == 0 && vx_keys == 0 && vx_column_index >= vx_offset && vx_column_index <= SIZE_MAX / 4 && vx_ncols <= SIZE_MAX / 4 && vx_offset <= SIZE_MAX / 4'),
+    ('assigns', '*ec_p, self->more_, vx_keys, vx_key_index'),
+    ('ensures', '[C05][C18] in n_objects mode a value of a column that has a name is announced by that name, unless it is an ignored empty value - and also then when it opens a list of sub-fields, whose array follows (F51: the array was delivered without a name)',
+     '(vx_mapping_kind == csv_mapping_kind_n_objects && vx_column_index < vx_ncols + vx_offset && (opens_subfields || !(self->ignore_empty_values_ && vx_buflen == 0))) ? (vx_keys == 1 && vx_key_index == vx_column_index - vx_offset) : vx_keys == 0'),
+]
+BV_AL = dict(AL, mapping_kind_='vx_mapping_kind', column_index_='vx_column_index', offset_='vx_offset', cursor_mode_='vx_cursor_mode')
+SPECS.append(EnumSpec('csv_mapping_kind', 'include/jsoncons_ext/csv/csv_options.hpp'))
+SPECS.append(FuncSpec('before_value_data', P, r'void before_value\(basic_json_visitor<CharT>& visitor,\s*std::error_code& ec(?:, bool opens_subfields = false)?\)', count=1, csig='void before_value_data(struct csv_parser* self, int* ec_p, bool opens_subfields)', contract=BV_C, aliases=BV_AL,
+             rules=[(r'case csv_mode::data:', 'case 0:', 1, 1), (r'csv_mapping_kind::(\w+)', r'csv_mapping_kind_\1', 1, 2), (r'buffer_\.empty\(\)', '(vx_buflen == 0)', 1, 2), (r'column_names_\.size\(\)', 'vx_ncols', 1, 2),
+                    (r'visitor\.key\(column_names_\[column_index_ - offset_\], \*this, ec\);', 'vx_keys++; vx_key_index = column_index_ - offset_;', 1, 1)],
+             slice_from=r'case csv_mode::data:\s*if \(mapping_kind_ == csv_mapping_kind::n_objects\)', slice_to=r'default:\s*break;\s*\}\s*$',
+             prologue='switch (0) {', epilogue='}'))
+MC_C = [
+    ('requires', 'vx_end_values == 0 && vx_skips == 0'),
+    ('assigns', 'vx_end_values, vx_skips'),
+    ('ensures', '[C05][C18] m_columns: a value is delivered to the column filter; an ignored empty value moves the filter to the next column only when it is a field of the row - inside a list of sub-fields the column stays (F51: the column index ran past the last column, heap-buffer-overflow in m_columns_filter::visit_end_array)',
+     '(self->ignore_empty_values_ && vx_buflen == 0) ? (vx_end_values == 0 && vx_skips == (vx_mode_subfields ? 0 : 1)) : (vx_end_values == 1 && vx_skips == 0)'),
+]
+for nm, fn in (('m_columns_unquoted', 'end_unquoted_string_value'), ('m_columns_quoted', 'end_quoted_string_value')):
+    SPECS.append(FuncSpec(nm, P, r'void %s\(basic_json_visitor<CharT>& visitor,\s*std::error_code& ec\)' % fn, count=1, csig='void %s(struct csv_parser* self)' % nm, contract=MC_C, aliases=AL,
+             rules=[(r'case csv_mapping_kind::m_columns:', 'case 0:', 1, 1), (r'buffer_\.empty\(\)', '(vx_buflen == 0)', 1, 1), (r'end_value\(visitor, (?:infer_types_|false), ec\);', 'vx_end_values++;', 1, 1), (r'm_columns_filter_\.skip_column\(\);', 'vx_skips++;', 1, 1),
+                    (r'stack_\.back\(\) == csv_mode::data', '!vx_mode_subfields', 0, 1)],
+             slice_from=r'case csv_mapping_kind::m_columns:', slice_to=r'\}\s*break;\s*default:\s*break;\s*\}\s*$',
+             prologue='switch (0) {', epilogue='}'))
 HARNESSES = [
+    Harness('before_value_data', 'h_before_value_data', enforce='before_value_data', method='LF', props=['C05', 'C18']),
+    Harness('m_columns_unquoted', 'h_m_columns_unquoted', enforce='m_columns_unquoted', method='LF', props=['C05', 'C18']),
+    Harness('m_columns_quoted', 'h_m_columns_quoted', enforce='m_columns_quoted', method='LF', props=['C05', 'C18']),
     Harness('eof_quoted', 'h_eof_quoted', enforce='eof_quoted', method='LF', props=['C05', 'C18', 'C03'], note='program slice of the end-of-input switch of parse_some: the three states that can hold when the input ends in or right after a quoted field; every other state takes the default arm, which the slice reproduces'),
     Harness('expect_record', 'h_expect_record', enforce='expect_record', method='LF', props=['C18', 'C03']),
     Harness('quoted_states', 'h_quoted_states', enforce='quoted_states', method='LF', props=['C18', 'C03']),
